@@ -9,7 +9,7 @@ from ..core import Outcome
 ID = "C10"
 LEVEL = "exploration"
 RULE = (
-    "Hypothesis draws profiles (closures with n up to 12, free arrays with up to 24 nodes, constants), a grid, halo, modes, a source, "
+    "Hypothesis draws profiles (closures with n up to 12 (one case in six: up to 80, i.e. ~160 nodes), free arrays with up to 24 nodes, constants), a grid, halo, modes, a source, "
     "a tower, footprint or dispersion, numerical or analytic (constant profiles), precision, and an ordered selection of distinct "
     "levels (ascending / descending / shuffled, with or without node 0 and the top node) passed as Python int, NumPy integer scalar, "
     "list, tuple-free int32 or int64 array. Oracle: slice k of the multi-level result equals the single-level call for levels[k] and "
@@ -29,7 +29,9 @@ def warmup():
 @st.composite
 def _case(draw):
     analytic = draw(st.integers(0, 3)) == 0
-    case = draw(gen.problem(kinds=("const",) if analytic else ("closure", "free", "const"), nzmax=24, nclosure=12, nmax=8))
+    big = draw(st.integers(0, 5)) == 0  # large vertical grids now and then (up to ~160 nodes)
+    case = draw(gen.problem(kinds=("const",) if analytic else (("closure",) if big else ("closure", "free", "const")),
+                            nzmax=24, nclosure=80 if big else 12, nmax=8))
     z, _ = gen.build_profiles(case["prof"])
     nz = len(z)
     case["analytic"] = analytic
